@@ -7,12 +7,14 @@ import (
 	stdlog "log"
 	"os"
 	"path/filepath"
+	"regexp"
 	"strings"
 	"time"
 
 	"github.com/AliceO2Group/Control/apricot"
 	"github.com/AliceO2Group/Control/apricot/local"
 	"github.com/AliceO2Group/Control/common/event/topic"
+	"github.com/AliceO2Group/Control/common/utils/uid"
 	"github.com/AliceO2Group/Control/configuration/cfgbackend"
 	"github.com/AliceO2Group/Control/core"
 	"github.com/AliceO2Group/Control/core/environment"
@@ -140,7 +142,8 @@ func (s *sys) bootCore() *coreInst {
 	viper.Set("globalDefaultRevision", "master")
 	viper.Set("enableKafka", false)
 	viper.Set("taskClassCacheTTL", time.Hour)
-	viper.Set("integrationPlugins", []string{})
+	viper.Set("integrationPlugins", []string{"sp"})
+	viper.Set("spEndpoint", "sim")
 	viper.Set("config_endpoint", "consul://sim-consul:8500")
 	viper.Set("mesosUrl", "http://sim-mesos:5050/api/v1/scheduler")
 	viper.Set("mesosFrameworkUser", "root")
@@ -152,6 +155,7 @@ func (s *sys) bootCore() *coreInst {
 	viper.Set("verbose", false)
 	viper.Set("veryVerbose", false)
 	integration.Reset()
+	integration.RegisterPlugin("sp", "spEndpoint", func(string) integration.Plugin { return probePlugin{} })
 	src, err := cfgbackend.NewConsulSourceForVerif("sim-consul:8500", s.consul.HTTPClient(fmt.Sprintf("core%d", inc)))
 	if err != nil {
 		panic(err)
@@ -189,9 +193,37 @@ func (s *sys) crash() {
 	s.c.Count("fault.core_crash")
 }
 
+var tmpDirRe = regexp.MustCompile(`/var/tmp/vhcore[0-9]+`)
+
+// errStr renders an error for the canonical log: one line, and without the random name of the
+// run's temporary directory (task class names carry the repository path).
 func errStr(err error) string {
 	if err == nil {
 		return ""
 	}
-	return strings.ReplaceAll(err.Error(), "\n", " | ")
+	return tmpDirRe.ReplaceAllString(strings.ReplaceAll(err.Error(), "\n", " | "), "/var/tmp/vhcoreN")
+}
+
+// probePlugin is a minimal integration plugin (public plugin API): workflows may call sp.Probe().
+type probePlugin struct{}
+
+func (probePlugin) GetName() string                                     { return "sp" }
+func (probePlugin) GetPrettyName() string                               { return "sim probe" }
+func (probePlugin) GetEndpoint() string                                 { return "sim" }
+func (probePlugin) GetConnectionState() string                          { return "READY" }
+func (probePlugin) GetData([]any) string                                { return "" }
+func (probePlugin) GetEnvironmentsData([]uid.ID) map[uid.ID]string      { return nil }
+func (probePlugin) GetEnvironmentsShortData([]uid.ID) map[uid.ID]string { return nil }
+func (probePlugin) Init(string) error                                   { return nil }
+func (probePlugin) Destroy() error                                      { return nil }
+func (probePlugin) ObjectStack(map[string]string, map[string]string) map[string]interface{} {
+	return map[string]interface{}{}
+}
+func (probePlugin) CallStack(data interface{}) map[string]interface{} {
+	return map[string]interface{}{
+		"Probe": func() string {
+			simrt.Count("probe.plugin_call")
+			return ""
+		},
+	}
 }
